@@ -46,6 +46,12 @@ SCRIPTED = [
     ("two-auth-cookies-okta", [
         "reset 0 0 0 0 okta", "login 0 1", "login 1 1", "oktaotp 1:2+0:2 0", "oktapushstart 1:2+0:2", "oktaapprove 0",
         "oktapoll 1:2+0:2", "oktapoll 0:2+1:2", "oktaotp 0:2+1:2 0"]),
+    ("legacy-enrolled-user-challenge-is-one-time", [
+        "reset 11 0 10 0 htp", "login 0 1", "login 1 1",
+        "u2fbegin 0:2", "u2ffinish 0:2 0 u 0", "u2ffinish 0:2 0 u 0", "u2ffinish 0:10 0 u 0",
+        "wabegin 0:2", "wafinish 0:2 0 u 1", "wafinish 0:2 0 u 1", "u2ffinish 0:2 0 u 1",
+        "wabegin 1:2", "u2ffinish 1:2 1 u 2", "wafinish 1:2 1 u 2", "u2ffinish 1:2 1 u 2",
+        "totp 0:2 0 0", "totp 0:2 0 0", "u2fbegin 1:2", "tick", "u2ffinish 1:2 1 u 3"]),
     ("bootstrap-otp-write-fault", [
         "reset 0 3 0 3 htp", "login 0 1", "login 1 1", "fault 1 0", "bootstrap 0:2 0", "bootstrap 0:2 0", "fault 0 0",
         "bootstrap 0:2 0", "bootstrap 0:2 0", "bootstrap 0:258 0", "fault 1 0", "bootstrap 1:2 1", "tick", "fault 0 0",
@@ -112,7 +118,9 @@ class Seq:
         if forced_cfg:
             self.flags, self.boot, self.mode = forced_cfg
         else:
-            self.flags = [rng.choice([0, 1, 2, 3, 4, 6, 7, 7]) for _ in USERS]
+            # bit 8: the user's profile was only ever written by the legacy /u2f/Register* path (Username
+            # and WebauthnID inside the stored profile are empty); only meaningful without a webauthn credential
+            self.flags = [rng.choice([0, 1, 2, 3, 4, 6, 7, 7, 8 | 2, 8 | 3, 8 | 3, 8]) for _ in USERS]
             self.boot = [rng.choice([0, 0, 1, 2, 3, 5]) for _ in USERS]
             if r < 0.25:
                 u = rng.choice(USERS)
@@ -521,7 +529,8 @@ def run(ctx):
             names += ["random"] * len(s)
         if not quick:
             exh_stats = []
-            for depth, reset, fam in ((6, "reset 3 0 0 2 htp", "push-totp-u2f"), (6, "reset 6 0 4 2 htp", "hw-cli")):
+            # user 0 of the first family is a legacy-enrolled user (bit 8), see Seq.__init__
+            for depth, reset, fam in ((6, "reset 11 0 0 2 htp", "push-totp-u2f"), (6, "reset 6 0 4 2 htp", "hw-cli")):
                 edges, st, nstates = enumerate_exhaustive(ctx, depth, reset, fam, cap=80000)
                 exh_stats.append({"family": fam, "config": reset, "depth": depth, "levels": st, "states": nstates,
                                   "edges": len(edges)})
